@@ -36,13 +36,28 @@ ID = "C19"
 MOD = "harness.props.c19"
 T = "MetadorModel.C19."
 LEAN = dict(
-    modules=["MetadorModel.Props.C19"],
+    modules=["MetadorModel.Props.C19", "MetadorModel.Bridge.HashsumsFns"],
     theorems=[T + n for n in [
         "order_independent", "hashsums_injective", "file_entry_format", "entries_exact",
         "chunking_independent", "hashsum_is_standard_digest", "outside_symlink_rejected", "rejected_of_bad_entry",
-        "unsupported_alg_rejected", "legacy_symlink_to_file_confused", "legacy_outside_file_symlink_accepted"]],
+        "unsupported_alg_rejected", "legacy_symlink_to_file_confused", "legacy_outside_file_symlink_accepted"]]
+    # generated-from-source definitions (Gen/HashsumsFns.lean) = the model the theorems above are about
+    + ["MetadorModel.Bridge.HashsumsFns." + n for n in [
+        "gen_rel_symlink", "gen_rel_symlink_not_link", "gen_seg_loop", "gen_loop_body", "gen_dir_hashsums",
+        "gen_default_alg", "gen_dir_hashsums_default", "gen_errors"]],
     drivers=["drv_hsh"],
 )
+
+
+def translate(ctx):
+    """Regenerate Gen/HashsumsFns.lean (rel_symlink, dir_hashsums) from the source of envshim.REPO."""
+    from .. import translate_c19
+    ctx.trusted.append("harness/translate_c19.py (Python ast -> Lean) for rel_symlink / dir_hashsums and its value dictionary "
+                       "lean/MetadorModel/Model/HashsumsPy.lean (pathlib/os calls and dict aliasing as model values); "
+                       "bridge theorems Bridge/HashsumsFns.lean re-checked on every run")
+    changed = translate_c19.write()
+    return "Gen/HashsumsFns.lean %s" % ("rewritten" if changed else "unchanged")
+
 
 VROOT = ["T", "R"]          # virtual absolute path of the scratch root of one tree
 VBASE = VROOT + ["base"]    # ... of the hashed directory
